@@ -1,1 +1,3 @@
+import MeddlyModel.Basic.Val
 import MeddlyModel.Core.DD
+import MeddlyModel.Core.Canon
